@@ -27,7 +27,8 @@ static void maybe_crash(void)
 	syscalls++;
 }
 static int trunc_fails, write_mode[3], write_amount[3], writes;
-int verif_ftruncate(int fd, off_t len) { (void)fd; if (trunc_fails) { maybe_crash(); return -1; } file_len = (size_t)len; maybe_crash(); return 0; }
+/* ftruncate keeps the file offset; bytes beyond the new length are gone (a later write past the end leaves a hole of zero bytes) */
+int verif_ftruncate(int fd, off_t len) { (void)fd; if (trunc_fails) { maybe_crash(); return -1; } file_len = (size_t)len; for (size_t i = 0; i < FCAP; i++) if (i >= file_len) FILE_BYTES[i] = 0; maybe_crash(); return 0; }
 off_t verif_lseek(int fd, off_t off, int whence) { (void)fd; (void)whence; file_pos = (size_t)off; maybe_crash(); return off; }
 ssize_t verif_write(int fd, const void *buf, size_t n)
 {
@@ -88,6 +89,7 @@ static void install_db(void)
 	cJSON_AddItemToObject(us, "adm", mkuser("Hpa", "g1", 0, 1, 0));
 	cJSON_AddItemToObject(us, "ro", mkuser("Hpr", 0, 0, 0, 1));
 	cJSON_AddItemToObject(us, "u3", mkuser("Hp3", "g", "g", 0, 0));        /* group "g": its name is a prefix of "g1" */
+	cJSON_AddItemToObject(us, "u1x", mkuser("Hpx", 0, 0, 0, 0));           /* user "u1x": "u1" is a prefix of its name */
 	cJSON_AddItemToObject(db, "users", us);
 	user_data = db; users = us; password_file = 5;
 	cJSON *g = cJSON_CreateArray(); cJSON_AddItemToArray(g, cJSON_CreateString("g1")); cJSON_AddItemToArray(g, cJSON_CreateString("g2")); cJSON_AddItemToArray(g, cJSON_CreateString("g"));
@@ -245,6 +247,10 @@ void harness_passwd(void)
 	__CPROVER_assume(login(&P1, "adm", "pa")); target = "nobody"; allowed = 0; /* unknown account */
 #elif PWCASE == 6
 	__CPROVER_assume(login(&P1, "ro", "pr")); target = "ro"; allowed = 0;      /* own account, but read-only */
+#elif PWCASE == 7
+	__CPROVER_assume(login(&P1, "u1", "p1")); target = "u1x"; allowed = 0;     /* an account whose name starts with the requester's name */
+#elif PWCASE == 8
+	__CPROVER_assume(login(&P1, "u1x", "px")); target = "u1"; allowed = 0;     /* an account whose name is a prefix of the requester's name */
 #endif
 	scn_build_begin(); cJSON *req = auth_req(5, "passwd", target, "nw"); scn_build_end();
 	reset_log();
@@ -256,6 +262,8 @@ void harness_passwd(void)
 	cJSON *u1pw = cJSON_GetObjectItem(cJSON_GetObjectItem(users, "u1"), "password");
 	if (!allowed) {
 		CHECK(u1pw && u1pw->valuestring[0] == 'H' && u1pw->valuestring[1] == 'p' && u1pw->valuestring[2] == '1' && u1pw->valuestring[3] == 0, "C20.refused_change_leaves_database_unchanged");
+		{ cJSON *xpw = cJSON_GetObjectItem(cJSON_GetObjectItem(users, "u1x"), "password");
+		  CHECK(xpw && xpw->valuestring[0] == 'H' && xpw->valuestring[1] == 'p' && xpw->valuestring[2] == 'x' && xpw->valuestring[3] == 0, "C20.refused_change_leaves_database_unchanged"); }
 		CHECK(syscalls == 0, "C20.refused_change_does_not_touch_the_file");
 		REACH("refused");
 	} else {
@@ -263,6 +271,13 @@ void harness_passwd(void)
 		CHECK(credentials_ok("u1", n1) != 0, "C20.new_password_authenticates");
 		CHECK(credentials_ok("u1", o1) == 0, "C20.old_password_no_longer_authenticates");
 		CHECK(file_len == 3 && FILE_BYTES[0] == 'N' && FILE_BYTES[1] == 'E' && FILE_BYTES[2] == 'W', "C20.file_holds_the_new_database");
+		/* a second change in the same process: the file again holds exactly the serialised database */
+		scn_build_begin(); cJSON *req2 = auth_req(6, "passwd", target, "n2"); scn_build_end();
+		reset_log();
+		int r2 = dispatch(&P1, req2);
+		struct sent *resp2 = last_of(&P1, K_RESPONSE);
+		CHECK(r2 == 0 && resp2 && resp2->has_result, "C20.second_change_is_carried_out");
+		CHECK(file_len == 3 && FILE_BYTES[0] == 'N' && FILE_BYTES[1] == 'E' && FILE_BYTES[2] == 'W', "C20.file_holds_the_new_database_after_every_change");
 		REACH("changed");
 	}
 	WITNESS_END();
@@ -275,6 +290,7 @@ void harness_crash_atomic(void)
 	trunc_fails = nd_bool();
 	for (int i = 0; i < 3; i++) { write_mode[i] = (int)nd_range(0, 2); write_amount[i] = (int)nd_range(1, 3); }
 	crash_after = (int)nd_range(-1, 6);
+	file_pos = (size_t)nd_range(0, 4);      /* where earlier reads / updates left the offset of the open file: anywhere */
 	int r = write_user_data();
 	CHECK(writes <= 4, "C20.update_terminates");
 	int is_new = file_len == 3 && FILE_BYTES[0] == 'N' && FILE_BYTES[1] == 'E' && FILE_BYTES[2] == 'W';
